@@ -62,16 +62,23 @@ package nsqd
 //@   onreturn lSendClient := client
 //@   onreturn lSendErr := result
 
-// bufferPoolGet / bufferPoolPut wrap a sync.Pool of *bytes.Buffer (pool New never returns nil).
+// bufferPoolGet / bufferPoolPut wrap a sync.Pool of *bytes.Buffer (pool New never returns nil). Still trusted (sync.Pool is outside
+// the subset); (round 4, area A) the calls are recorded in free ghosts (declared in zz_contracts_flow_verif.go) so that
+// writeMessageToBackend can state who owns the buffer while its bytes are in use.
 //@ func bufferPoolGet() *bytes.Buffer
 //@   trusted
 //@   nochan
 //@   ensures result != nil
-//@   modifies
+//@   modifies r4APoolGets, r4AGotBuf, r4AGotAt
+//@   onreturn r4APoolGets := r4APoolGets + 1
+//@   onreturn r4AGotBuf := result
+//@   onreturn r4AGotAt := wN
 //@ func bufferPoolPut(b *bytes.Buffer)
 //@   trusted
 //@   nochan
-//@   modifies
+//@   modifies r4APoolPuts, r4APutBuf
+//@   onreturn r4APoolPuts := r4APoolPuts + 1
+//@   onreturn r4APutBuf := b
 
 // SendMessage: the call-order clauses of the delivery pump are its preconditions.
 //  [deliver-guard]          the most recent readiness check was for this connection, answered true and has
